@@ -219,10 +219,12 @@ static void do_ens()
 }
 
 // dyntrack <id> <n> <it> <qmin> <qmax> <angle> <revpart> <fRF> <phasespread> <amplspread> <modampl> <modtimeinc>
-//          <steps> <seed> <slip0> <np> np*(x y)
+//          <steps> <seed> <slip0> <renew> <np> np*(x y)
 // The time-dependent RF map and a drift exactly as main() drives them: per step
 //   rfm->apply(); rfm->applyToAll(ps); drm->apply(); drm->applyToAll(ps);
-// on a grid holding a unit hat-blob centred on particle 0 (rf: g1 -> g2, drift: g2 -> g1).
+// on a grid holding a unit hat-blob centred on particle 0 (rf: g1 -> g2, drift: g2 -> g1); every <renew> steps the
+// grid is emptied and a fresh blob is put on particle 0 (interpolation widens the support by up to two cells per map,
+// and the first-moment identity needs the support inside the grid).
 // The modulation queue is recomputed by the map's own __calcModulation after reseeding its PRNG
 // (what the constructor does, with a known seed instead of std::random_device).
 // prints: rf (tan(_angle) _syncphase _bl2phase xcenter delta0), offs0 (the map's _offset after construction),
@@ -251,13 +253,14 @@ static void do_dyntrack()
     unsigned steps = nextl();
     unsigned long seed = nextl();
     float slip0 = nextf();
+    unsigned renew = nextl();
     unsigned np = nextl();
     std::vector<PhaseSpace::Position> ps(np);
     for (auto& p : ps) { p.x = nextf(); p.y = nextf(); }
     auto g1 = mkps(n, 1, qmin, qmax, qmin, qmax);
     auto g2 = mkps(n, 1, qmin, qmax, qmin, qmax);
-    for (size_t i = 0; i < (size_t)n * n; i++) { g1->getData()[i] = 0; g2->getData()[i] = 0; }
-    {
+    auto deposit = [&]() {
+        for (size_t i = 0; i < (size_t)n * n; i++) { g1->getData()[i] = 0; g2->getData()[i] = 0; }
         float xi, yi;
         float xf = std::modf(ps[0].x, &xi), yf = std::modf(ps[0].y, &yi);
         unsigned ix = (unsigned)xi, iy = (unsigned)yi;
@@ -265,7 +268,8 @@ static void do_dyntrack()
         for (int a = 0; a < 2; a++)
             for (int b = 0; b < 2; b++)
                 if (ix + a < n && iy + b < n) g1->getData()[(ix + a) * n + iy + b] = wx[a] * wy[b];
-    }
+    };
+    deposit();
     auto itp = static_cast<SourceMap::InterpolationType>(it);
     // the linear dynamic constructor, called as main() calls it
     std::shared_ptr<DynamicRFKickMap> drfm(new DynamicRFKickMap(g1, g2, n, n, angle, revpart, fRF,
@@ -287,6 +291,7 @@ static void do_dyntrack()
     { auto q = drfm->_next_modulation; while (!q.empty()) { pf(q.front()[0]); pf(q.front()[1]); q.pop(); } }
     printf("\n");
     for (unsigned k = 0; k < steps; k++) {
+        if (renew > 0 && k > 0 && k % renew == 0) deposit();
         print_pos("pre", ps);
         rfm->apply();
         printf("offs");
